@@ -30,13 +30,17 @@ use serde_json::{Map, Value, json};
 type Db = IsographDatabase<GraphQLAndJavascriptProfile>;
 
 const SCHEMA_S1: &str = "type Query { me: User! }\ntype User { id: ID! name: String! age: Int }\n";
-const SCHEMA_S2: &str = "type Query { me: User! }\ntype User { id: ID! name: String! age: Int nick: String }\n";
+// s2 changes the nullability of BOTH fields the file contents select (v1: name, v2: age), so that a schema the live
+// database did not pick up shows in the artifacts of every project with at least one source file
+const SCHEMA_S2: &str = "type Query { me: User! }\ntype User { id: ID! name: String age: Int! nick: String }\n";
 
 /// content of class `c`; `serial` makes the field it defines unique within a replay, so that renamed
 /// copies never produce duplicate definitions (whose diagnostics depend on iteration order: C14's subject)
 fn content_bytes(serial: usize, c: &str) -> Vec<u8> {
     match c {
         "bin" => vec![0xff, 0xfe, 0x00, 0x80],
+        // a source file without any literal (and without the three letters of the function's name)
+        "v0" => format!("// CLASS:v0\nexport const n{serial} = 1;\n").into_bytes(),
         v => {
             let sel = if v == "v1" { "name" } else { "age" };
             format!(
@@ -55,11 +59,28 @@ fn class_of(content: &str) -> String {
         .to_string()
 }
 
+/// The artifacts of whatever `get_artifact_path_and_content` returns on success (a plain tuple today; the repository's
+/// own non-fatal-diagnostics wrapper is tolerated so that the harness still builds when the signature moves to it).
+trait GeneratedArtifacts {
+    fn artifacts(&self) -> &Vec<common_lang_types::ArtifactPathAndContent>;
+}
+impl<S> GeneratedArtifacts for (Vec<common_lang_types::ArtifactPathAndContent>, S) {
+    fn artifacts(&self) -> &Vec<common_lang_types::ArtifactPathAndContent> {
+        &self.0
+    }
+}
+impl<T: GeneratedArtifacts, E> GeneratedArtifacts for common_lang_types::WithGenericNonFatalDiagnostics<T, E> {
+    fn artifacts(&self) -> &Vec<common_lang_types::ArtifactPathAndContent> {
+        self.item.artifacts()
+    }
+}
+
 fn result_of(db: &Db) -> Value {
     match catch_unwind(AssertUnwindSafe(|| get_artifact_path_and_content(db))) {
         Err(p) => json!({"t": "panic", "msg": h_compile::panic_message(p)}),
-        Ok(Ok((arts, _))) => {
-            let mut v: Vec<(String, String)> = arts
+        Ok(Ok(r)) => {
+            let mut v: Vec<(String, String)> = r
+                .artifacts()
                 .iter()
                 .map(|a| {
                     let dir = a
